@@ -46,9 +46,14 @@ struct Cfg {
   int tail;        // late calls after Shutdown returned
   int destroy;     // 1: destruction instead of an explicit final Shutdown
   int heavy;       // large state space: explored by the *_heavy registry entry with its own budget
+  int sd_timeout;  // timeout given to every explicit Shutdown: 0 default (max), 1 zero, 2 1 ms, 3 60 s
+  int fft2;        // timeout kind of flusher #1 when it differs from flusher #0: 0 = same, else kind + 1
+  int inflight;    // the main thread first adds one record and waits until the worker is inside Export with it (harness-level wait: no preemption needed)
+  int ctor;        // 1: the other constructor overload (span: options + runtime options; log: options, or options + runtime options for B > 1)
 };
 std::vector<Cfg> g_cfgs;
 std::string g_oracle;
+bool g_overlap_matters = false;
 
 struct Shared {
   std::vector<Event> ev;
@@ -61,6 +66,7 @@ struct Shared {
   std::mutex gate_m;
   std::condition_variable gate_cv;
   bool producers_done = false;
+  bool export_entered = false;
   const Cfg *cfg = nullptr;
   int log(int kind, int a = 0, int b = 0) {
     ev.push_back({kind, vfs::self(), a, b, vfs::virt_ns()});
@@ -81,9 +87,10 @@ struct SpanTr {
   using TagRec = Tagged<vfstub::SpanRec>;
   using Exporter = opentelemetry::sdk::trace::SpanExporter;
   using Proc = opentelemetry::sdk::trace::BatchSpanProcessor;
-  static std::unique_ptr<Proc> make(std::unique_ptr<Exporter> e, int Q, int B) {
+  static std::unique_ptr<Proc> make(std::unique_ptr<Exporter> e, int Q, int B, int ctor) {
     opentelemetry::sdk::trace::BatchSpanProcessorOptions o;
     o.max_queue_size = Q; o.max_export_batch_size = B; o.schedule_delay_millis = milliseconds(kDelayMs);
+    if (ctor) return std::unique_ptr<Proc>(new Proc(std::move(e), o, opentelemetry::sdk::trace::BatchSpanProcessorRuntimeOptions{}));
     return std::unique_ptr<Proc>(new Proc(std::move(e), o));
   }
   static void add(Proc &p, std::unique_ptr<Rec> r) { p.OnEnd(std::move(r)); }
@@ -93,7 +100,13 @@ struct LogTr {
   using TagRec = Tagged<vfstub::LogRec>;
   using Exporter = opentelemetry::sdk::logs::LogRecordExporter;
   using Proc = opentelemetry::sdk::logs::BatchLogRecordProcessor;
-  static std::unique_ptr<Proc> make(std::unique_ptr<Exporter> e, int Q, int B) {
+  static std::unique_ptr<Proc> make(std::unique_ptr<Exporter> e, int Q, int B, int ctor) {
+    if (ctor) {
+      opentelemetry::sdk::logs::BatchLogRecordProcessorOptions o;
+      o.max_queue_size = Q; o.max_export_batch_size = B; o.schedule_delay_millis = milliseconds(kDelayMs);
+      if (B > 1) return std::unique_ptr<Proc>(new Proc(std::move(e), o, opentelemetry::sdk::logs::BatchLogRecordProcessorRuntimeOptions{}));
+      return std::unique_ptr<Proc>(new Proc(std::move(e), o));
+    }
     return std::unique_ptr<Proc>(new Proc(std::move(e), (size_t)Q, milliseconds(kDelayMs), (size_t)B));
   }
   static void add(Proc &p, std::unique_ptr<Rec> r) { p.OnEmit(std::move(r)); }
@@ -110,7 +123,12 @@ class TagExporter final : public Tr::Exporter {
     g->batches.push_back(tags);
     int idx = g->log(EXP_ENTER, bi, (int)tags.size());
     g->batch_enter_idx.push_back(idx);
-    if (++g->inflight > 1 && g_oracle == "C03") vfs::fail("C03:overlapping-export", "Export entered while a previous Export on the same exporter is still running");
+    if (++g->inflight > 1 && g_overlap_matters) vfs::fail("C03:overlapping-export", "Export entered while a previous Export on the same exporter is still running");
+    if (g->cfg->inflight && !g->export_entered) {
+      std::lock_guard<std::mutex> lk(g->gate_m);
+      g->export_entered = true;
+      g->gate_cv.notify_all();
+    }
     if (g->cfg->gate) {
       std::unique_lock<std::mutex> lk(g->gate_m);
       g->gate_cv.wait(lk, [] { return g->producers_done; });
@@ -136,6 +154,14 @@ class TagExporter final : public Tr::Exporter {
   }
 };
 
+microseconds sd_timeout(int k) {
+  switch (k) {
+    case 1: return microseconds(0);
+    case 2: return microseconds(1000);
+    case 3: return microseconds(60ll * 1000 * 1000);
+    default: return (microseconds::max)();
+  }
+}
 microseconds ff_timeout(int k) {
   switch (k) {
     case 0: return microseconds(0);
@@ -155,8 +181,8 @@ std::string describe_events() {
 }
 [[noreturn]] void fail(const std::string &sig, const std::string &msg) {
   const Cfg &c = *g->cfg;
-  vfs::fail(sig, msg + vf::sfmt("\n  config: %s Q=%d B=%d P=%d n=%d latency=%d gate=%d F=%d fft=%d S=%d preflush=%d second=%d xfail=%d tail=%d destroy=%d\n  events:\n",
-                                c.kind ? "log" : "span", c.Q, c.B, c.P, c.n, c.latency, c.gate, c.F, c.ff_timeout, c.S, c.preflush, c.second, c.xfail, c.tail, c.destroy) +
+  vfs::fail(sig, msg + vf::sfmt("\n  config: %s Q=%d B=%d P=%d n=%d latency=%d gate=%d F=%d fft=%d S=%d preflush=%d second=%d xfail=%d tail=%d destroy=%d sd_timeout=%d fft2=%d ctor=%d inflight=%d\n  events:\n",
+                                c.kind ? "log" : "span", c.Q, c.B, c.P, c.n, c.latency, c.gate, c.F, c.ff_timeout, c.S, c.preflush, c.second, c.xfail, c.tail, c.destroy, c.sd_timeout, c.fft2, c.ctor, c.inflight) +
                           describe_events());
 }
 
@@ -178,7 +204,7 @@ void run_cfg(vf::Ctx &c, const Cfg &cfg) {
   c.stage("run");
   vfs::begin(c);
   {
-    auto proc = Tr::make(std::unique_ptr<typename Tr::Exporter>(new TagExporter<Tr>()), cfg.Q, cfg.B);
+    auto proc = Tr::make(std::unique_ptr<typename Tr::Exporter>(new TagExporter<Tr>()), cfg.Q, cfg.B, cfg.ctor);
     auto produce = [&](int p, int first, int count) {
       for (int i = first; i < first + count; ++i) {
         std::unique_ptr<typename Tr::Rec> r(new typename Tr::TagRec(p * 100 + i));
@@ -197,15 +223,20 @@ void run_cfg(vf::Ctx &c, const Cfg &cfg) {
       produce(9, 0, 1);
       flush(9, microseconds(0));
     }
+    if (cfg.inflight) {
+      produce(9, 1, 1);
+      std::unique_lock<std::mutex> lk(sh.gate_m);
+      sh.gate_cv.wait(lk, [&] { return sh.export_entered; });
+    }
     {
       std::vector<std::thread> ts;
       for (int p = 0; p < cfg.P; ++p) ts.emplace_back([&, p] { produce(p, 0, cfg.n); });
-      for (int f = 0; f < cfg.F; ++f) ts.emplace_back([&, f] { flush(f, ff_timeout(cfg.ff_timeout)); });
+      for (int f = 0; f < cfg.F; ++f) ts.emplace_back([&, f] { flush(f, ff_timeout(f == 1 && cfg.fft2 ? cfg.fft2 - 1 : cfg.ff_timeout)); });
       std::vector<std::thread> sd;
       for (int s = 0; s < cfg.S; ++s)
         sd.emplace_back([&, s] {
           sh.log(CALL_SD, s);
-          bool ok = proc->Shutdown();
+          bool ok = cfg.sd_timeout ? proc->Shutdown(sd_timeout(cfg.sd_timeout)) : proc->Shutdown();
           sh.log(RET_SD, s, ok);
         });
       for (auto &t : ts) t.join();
@@ -224,7 +255,7 @@ void run_cfg(vf::Ctx &c, const Cfg &cfg) {
     }
     if (!cfg.destroy) {
       sh.log(CALL_SD, 99);
-      bool ok = proc->Shutdown();
+      bool ok = cfg.sd_timeout ? proc->Shutdown(sd_timeout(cfg.sd_timeout)) : proc->Shutdown();
       sh.log(RET_SD, 99, ok);
     }
     if (cfg.tail) {
@@ -261,6 +292,11 @@ void run_cfg(vf::Ctx &c, const Cfg &cfg) {
   std::string outcome;
   for (auto &b : sh.batches) { outcome += "["; for (int t : b) outcome += vf::sfmt("%d,", t); outcome += "]"; }
 
+  // Every predicate below holds for every configuration (the configuration sets differ in what they stress,
+  // --cfgset selects them independently of --oracle); a predicate only reads cfg where the statement does.
+  const int total_records = cfg.P * cfg.n + (cfg.preflush ? 1 : 0) + (cfg.inflight ? 1 : 0) + (cfg.second ? cfg.Q : 0);
+  const bool no_drop_possible = total_records <= cfg.Q;  // the queue can hold everything that is ever produced
+
   if (g_oracle == "C01") {
     // 1. nothing delivered twice; 2. per-producer order
     std::map<int, int> seen;
@@ -290,9 +326,43 @@ void run_cfg(vf::Ctx &c, const Cfg &cfg) {
         fail("C01:lost", vf::sfmt("record %d (add returned at [%zu], before Shutdown was called) never reached the exporter although the queue had room: "
                                   "%d other adds had started before it returned, %d records had been handed to the exporter before it started, queue size %d",
                                   tag, i, others_started, handed, cfg.Q));
+      // "... in particular never when at most max_queue_size records are produced between two completed flushes":
+      // a flush that returned true before this add began has emptied the queue of everything whose add had
+      // returned before that flush was called, so only adds that were not yet finished when the flush was called
+      // and that started before this one returned can occupy slots.
+      int fr = -1, fc = -1;  // latest completed (true) flush that returned before the add was called, and its call
+      for (int j = 0; j < ci; ++j)
+        if (ev[j].kind == RET_FF && ev[j].b) {
+          fr = j;
+          for (int k = j; k >= 0; --k) if (ev[k].kind == CALL_FF && ev[k].a == ev[j].a && ev[k].thread == ev[j].thread) { fc = k; break; }
+        }
+      if (fr >= 0) {
+        int since = 0;  // adds (this one included) not covered by that flush and started before this one returned
+        for (int j = 0; j < (int)i; ++j) {
+          if (ev[j].kind != CALL_ADD) continue;
+          int rj = -1;
+          for (int k = j + 1; k < (int)ev.size(); ++k) if (ev[k].kind == RET_ADD && ev[k].a == ev[j].a) { rj = k; break; }
+          if (rj < 0 || rj > fc) since++;
+        }
+        if (since <= cfg.Q)
+          fail("C01:lost:between-flushes", vf::sfmt("record %d (add called at [%d], returned at [%zu]) never reached the exporter although only %d records (max_queue_size %d) were produced "
+                                                    "since the ForceFlush called at [%d] had completed (returned true at [%d])", tag, ci, i, since, cfg.Q, fc, fr));
+      }
     }
     // 4. ownership
     if (sh.live != 0) fail("C01:leak", vf::sfmt("%d recordables still alive after the processor was destroyed", sh.live));
+    // 5. producers never wait for the exporter: a producer is runnable from the call to the return of OnEnd / OnEmit,
+    // and the virtual clock only moves when no thread is runnable - unless a timer deviation moved it (t = 0 runs only)
+    if (c.opt().cap[vf::TIMER] == 0)
+      for (size_t i = 0; i < ev.size(); ++i) {
+        if (ev[i].kind != RET_ADD) continue;
+        for (int j = (int)i; j >= 0; --j)
+          if (ev[j].kind == CALL_ADD && ev[j].a == ev[i].a) {
+            if (ev[j].vt != ev[i].vt)
+              fail("C01:producer-waited", vf::sfmt("adding record %d blocked its producer for %lld ms (called at [%d], returned at [%zu])", ev[i].a, (long long)((ev[i].vt - ev[j].vt) / MS), j, i));
+            break;
+          }
+      }
   }
 
   if (g_oracle == "C03") {
@@ -314,8 +384,10 @@ void run_cfg(vf::Ctx &c, const Cfg &cfg) {
       for (int j = 0; j < ci; ++j) {
         if (ev[j].kind != RET_ADD) continue;
         int tag = ev[j].a;
-        // all C02 configurations use a queue that can hold every record, so nothing may be dropped
         int b = export_of(tag);
+        // a record that was never exported may have been dropped at a full queue (C01 decides whether rightly);
+        // where the queue can hold everything that is ever produced, nothing may be missing
+        if (b < 0 && !no_drop_possible) continue;
         if (b < 0 || sh.batch_enter_idx[b] > (int)i)
           fail("C02:flush-incomplete", vf::sfmt("ForceFlush #%d returned true at [%zu] but record %d, whose add had returned at [%d] before the flush was called at [%d], %s",
                                                 f, i, tag, j, ci, b < 0 ? "was never exported" : "was exported only afterwards"));
@@ -338,7 +410,8 @@ void run_cfg(vf::Ctx &c, const Cfg &cfg) {
     }
     for (size_t j = 0; j < ev.size(); ++j) {
       if (ev[j].kind != RET_ADD || (first_sd_call >= 0 && (int)j > first_sd_call) || ev[j].a / 100 == 6) continue;
-      if (export_of(ev[j].a) < 0) fail("C02:shutdown-incomplete", vf::sfmt("record %d was produced (add returned at [%zu]) before Shutdown was called at [%d] but never exported", ev[j].a, j, first_sd_call));
+      if (export_of(ev[j].a) < 0 && no_drop_possible)
+        fail("C02:shutdown-incomplete", vf::sfmt("record %d was produced (add returned at [%zu]) before Shutdown was called at [%d] but never exported", ev[j].a, j, first_sd_call));
     }
     if (sh.live != 0) fail("C02:leak", vf::sfmt("%d recordables still alive after the processor was destroyed", sh.live));
   }
@@ -363,30 +436,43 @@ void setup(vf::Options &o) {
   o.cap[vf::WAKE] = atoi(o.get("w", "0").c_str());
   o.table_bits = th ? 26 : 24;
   o.deadline_s = atof(o.get("budget", th ? "1500" : "120").c_str());
+  g_overlap_matters = g_oracle == "C03";
+  // --cfgset: which configuration sets to explore (default: the one written for the oracle's own property);
+  // "C02,C03" etc. let one property's predicates judge the configurations that were written to stress another
+  std::string cfgsets = "," + o.get("cfgset", g_oracle) + ",";
+  auto want = [&](const char *id) { return cfgsets.find(std::string(",") + id + ",") != std::string::npos; };
   Cfg z{};  // all zero
   for (int kind = 0; kind < 2; ++kind) {
     Cfg b = z; b.kind = kind;
-    if (g_oracle == "C01") {
+    if (want("C01")) {
       // {Q,B}: the queue is smaller than / equal to / larger than what is produced
       int qb[][2] = {{1, 1}, {2, 1}, {2, 2}, {4, 2}};
       for (auto &q : qb) {
         if (!th && q[0] == 4) continue;
-        Cfg c = b; c.Q = q[0]; c.B = q[1]; c.P = 2; c.n = 2; add_cfg(c);
+        Cfg c = b; c.Q = q[0]; c.B = q[1]; c.P = 2; c.n = 2; c.ctor = q[0] == 2; add_cfg(c);
         if (th) { Cfg d = c; d.P = 3; d.n = 1; add_cfg(d); d.P = 2; d.n = 3; add_cfg(d); }
       }
       { Cfg c = b; c.Q = 2; c.B = 1; c.P = 2; c.n = 1; c.latency = 1; add_cfg(c); }     // slow exporter
       { Cfg c = b; c.Q = 2; c.B = 2; c.P = 2; c.n = 1; c.gate = 1; add_cfg(c); }        // producers never wait for the exporter
+      { Cfg c = b; c.Q = 1; c.B = 1; c.P = 1; c.n = 3; c.gate = 1; add_cfg(c); }        // ... nor when the queue is full while Export is parked
+      { Cfg c = b; c.Q = 1; c.B = 1; c.P = 1; c.n = 3; c.latency = 1; add_cfg(c); }     // ... or slow
+      if (th) { Cfg c = b; c.Q = 1; c.B = 1; c.P = 2; c.n = 2; c.gate = 1; add_cfg(c); }
       { Cfg c = b; c.Q = 2; c.B = 1; c.P = 1; c.n = 2; c.F = 1; c.second = 1; add_cfg(c); }  // <= Q records between two completed flushes
+      { Cfg c = b; c.Q = 2; c.B = 1; c.P = 1; c.n = 1; c.latency = 1; c.inflight = 1; c.second = 1; add_cfg(c); }  // ... the first flush called while an export is in flight
+      if (th) { Cfg c = b; c.Q = 4; c.B = 2; c.P = 1; c.n = 3; c.F = 1; c.second = 1; c.ctor = 1; add_cfg(c); }
       { Cfg c = b; c.Q = 1; c.B = 1; c.P = 2; c.n = 1; c.S = 1; add_cfg(c); }           // shutdown racing producers
-    } else if (g_oracle == "C03") {
+      if (th) { Cfg c = b; c.Q = 3; c.B = 2; c.P = 2; c.n = 3; add_cfg(c); }            // partial consumption across the wrap-around seam
+    }
+    if (want("C03")) {
       { Cfg c = b; c.Q = 4; c.B = 2; c.P = 2; c.n = 2; add_cfg(c); }
       { Cfg c = b; c.Q = 4; c.B = 1; c.P = 1; c.n = 3; c.F = 1; add_cfg(c); }
-      { Cfg c = b; c.Q = 4; c.B = 2; c.P = 1; c.n = 3; c.preflush = 1; add_cfg(c); }    // history with a completed earlier flush
+      { Cfg c = b; c.Q = 4; c.B = 2; c.P = 1; c.n = 3; c.preflush = 1; c.ctor = 1; add_cfg(c); }    // history with a completed earlier flush
       { Cfg c = b; c.Q = 3; c.B = 1; c.P = 2; c.n = 1; c.S = 1; add_cfg(c); }           // drain path
       if (th) { Cfg c = b; c.Q = 4; c.B = 2; c.P = 2; c.n = 2; c.F = 1; c.S = 1; add_cfg(c); }
-    } else {  // C02: queue always large enough for everything
+    }
+    if (want("C02")) {  // queue always large enough for everything
       { Cfg c = b; c.Q = 8; c.B = 2; c.P = 1; c.n = 2; c.F = 1; c.tail = 1; add_cfg(c); }
-      { Cfg c = b; c.Q = 8; c.B = 1; c.P = 2; c.n = 1; c.F = 1; add_cfg(c); }   // a record arrives while the worker is inside an export cycle
+      { Cfg c = b; c.Q = 8; c.B = 1; c.P = 2; c.n = 1; c.F = 1; c.ctor = 1; add_cfg(c); }   // a record arrives while the worker is inside an export cycle
       { Cfg c = b; c.Q = 8; c.B = 8; c.P = 1; c.n = 1; c.F = 2; c.heavy = 1; add_cfg(c); }
       { Cfg c = b; c.Q = 8; c.B = 2; c.P = 1; c.n = 2; c.S = 2; c.tail = 2; add_cfg(c); }
       { Cfg c = b; c.Q = 8; c.B = 2; c.P = 1; c.n = 1; c.F = 1; c.S = 1; add_cfg(c); }
@@ -394,10 +480,16 @@ void setup(vf::Options &o) {
       { Cfg c = b; c.Q = 8; c.B = 2; c.P = 1; c.n = 1; c.F = 1; c.latency = 2; c.ff_timeout = 2; add_cfg(c); }
       { Cfg c = b; c.Q = 8; c.B = 2; c.P = 1; c.n = 1; c.F = 1; c.ff_timeout = 3; c.destroy = 1; add_cfg(c); }
       { Cfg c = b; c.Q = 8; c.B = 2; c.P = 1; c.n = 2; c.F = 1; c.xfail = 7; c.tail = 1; add_cfg(c); }          // failing exporter
+      // Shutdown with a zero / finite timeout still drains everything, also behind a slow exporter
+      { Cfg c = b; c.Q = 8; c.B = 1; c.P = 1; c.n = 2; c.latency = 1; c.sd_timeout = 2; c.tail = 1; add_cfg(c); }
+      { Cfg c = b; c.Q = 8; c.B = 2; c.P = 1; c.n = 1; c.S = 2; c.sd_timeout = 1; add_cfg(c); }
+      { Cfg c = b; c.Q = 8; c.B = 2; c.P = 1; c.n = 1; c.F = 1; c.ff_timeout = 1; c.latency = 1; c.S = 1; c.sd_timeout = 3; add_cfg(c); }  // a flush timing out while the drain serves its ticket
+      { Cfg c = b; c.Q = 8; c.B = 2; c.P = 2; c.n = 2; c.destroy = 1; add_cfg(c); }                             // destruction with work queued by two producers
       if (th) {
         { Cfg c = b; c.Q = 8; c.B = 2; c.P = 2; c.n = 1; c.F = 2; c.S = 2; c.heavy = 1; add_cfg(c); }
         { Cfg c = b; c.Q = 8; c.B = 1; c.P = 1; c.n = 2; c.F = 1; c.latency = 3; c.S = 2; add_cfg(c); }
         { Cfg c = b; c.Q = 8; c.B = 2; c.P = 1; c.n = 2; c.F = 2; c.latency = 1; c.ff_timeout = 2; c.heavy = 1; add_cfg(c); }
+        { Cfg c = b; c.Q = 8; c.B = 2; c.P = 1; c.n = 1; c.F = 2; c.latency = 1; c.ff_timeout = 0; c.fft2 = 2; c.heavy = 1; add_cfg(c); }  // an unbounded and a short-timeout flusher together
       }
     }
   }
